@@ -9,7 +9,7 @@ from _util import exc_class, rb, rng  # noqa: E402
 from Crypto.Cipher import AES, DES3
 from Crypto.Hash import (MD2, MD4, MD5, RIPEMD160, SHA1, SHA224, SHA256, SHA384, SHA512, SHA3_224, SHA3_256, SHA3_384,
                          SHA3_512, keccak, BLAKE2b, BLAKE2s, HMAC, CMAC, Poly1305, KMAC128, KMAC256, SHAKE128, SHAKE256,
-                         cSHAKE128, cSHAKE256, TurboSHAKE128, TurboSHAKE256, KangarooTwelve, TupleHash128)
+                         cSHAKE128, cSHAKE256, TurboSHAKE128, TurboSHAKE256, KangarooTwelve, TupleHash128, TupleHash256)
 
 K16 = bytes(range(16))
 K24 = bytes(range(1, 25))
@@ -38,7 +38,10 @@ ALGOS = {
     "cSHAKE128": ("xof", lambda: cSHAKE128.new(custom=b"cust")), "cSHAKE256": ("xof", lambda: cSHAKE256.new()),
     "TurboSHAKE128": ("xof", lambda: TurboSHAKE128.new()), "TurboSHAKE256": ("xof", lambda: TurboSHAKE256.new(domain=0x0B)),
     "K12": ("xof", lambda: KangarooTwelve.new(custom=b"abc")),
+    # TupleHash: every update() supplies one item of the tuple; the one-shot reference supplies the same items with one call
+    "TupleHash128": ("keccak", lambda: TupleHash128.new(digest_bytes=32)), "TupleHash256": ("keccak", lambda: TupleHash256.new(digest_bytes=64, custom=b"t")),
 }
+TUPLE = ("TupleHash128", "TupleHash256")
 KINDS = {
     "md": dict(final="digest", uad=True, hasVerify=False, hasCopy=True),
     "hmac": dict(final="digest", uad=True, hasVerify=True, hasCopy=True),
@@ -55,10 +58,12 @@ KINDS = {
 }
 
 
-def oneshot(factory, segs, nread=None):
+def oneshot(factory, segs, nread=None, tuple_items=False):
     o = factory()
     data = b"".join(segs)
-    if data or True:
+    if tuple_items:
+        o.update(*segs)
+    elif data or True:
         o.update(data)
     if nread is None:
         return o.digest()
@@ -83,7 +88,7 @@ def replay(name, hist, r, tid):
         exc = "none"
         tag = b""
         if op in ("verify", "hexverify"):
-            tag = oneshot(factory, acc[i])
+            tag = oneshot(factory, acc[i], tuple_items=name in TUPLE)
             if not e["good"]:
                 tag = bytes([tag[0] ^ 0x80]) + tag[1:]
         try:
@@ -121,7 +126,7 @@ def replay(name, hist, r, tid):
         ev["out"] = list(out)
         ev["refdata"] = [list(x) for x in acc[i]]
         if op in ("digest", "hexdigest"):
-            ev["ref"] = list(oneshot(factory, acc[i]))
+            ev["ref"] = list(oneshot(factory, acc[i], tuple_items=name in TUPLE))
         elif op == "read":
             ev["ref"] = list(oneshot(factory, acc[i], squeezed[i]))
         else:
